@@ -362,6 +362,28 @@ func (ni *nodeInst) exec(o string) string {
 		}
 		ni.drainEvents()
 		return "growth " + strings.Join(growth, ",")
+	case f[0] == "uevalt" && len(f) == 4:
+		// uevalt <lt> <dist> <rounds>: two user events at times lt and lt+dist delivered alternately by gossip
+		// (lower first), `rounds` times each: how much the event queue grows per delivery.
+		lt, e1 := strconv.ParseUint(f[1], 10, 64)
+		dist, e2 := strconv.ParseUint(f[2], 10, 64)
+		rounds, e3 := strconv.Atoi(f[3])
+		if e1 != nil || e2 != nil || e3 != nil || dist < 1 || lt < 1 || lt > 1<<40 || dist > 1<<40 || rounds < 1 || rounds > 10 {
+			return "bad-op"
+		}
+		lo, _ := serf.VerifEncodeUserEvent(lt, "alt-lo", []byte("p"), false)
+		hi, _ := serf.VerifEncodeUserEvent(lt+dist, "alt-hi", []byte("p"), false)
+		q := func() int { n, _ := strconv.Atoi(ni.s.Stats()["event_queue"]); return n }
+		var growth []string
+		for i := 0; i < rounds; i++ {
+			for _, raw := range [][]byte{lo, hi} {
+				before := q()
+				dg.NotifyMsg(raw)
+				growth = append(growth, strconv.Itoa(q()-before))
+			}
+		}
+		ni.drainEvents()
+		return "growth " + strings.Join(growth, ",")
 	case f[0] == "ml2" && len(f) == 4:
 		// two different claims about the running local node delivered back to back (no wait in between):
 		// every one of them must end up refuted by a join with a greater time.  Last op of a case.
